@@ -527,6 +527,7 @@ def seat_check(prop, tier, seed, work, replay):
         "model_checking": mc_summary(mcs + [mc_cmp]),
         "both_sides_exploration": both, "tlaps_proof": proof,
         "real_calls_validated": res["lines"], "real_calls_by_source": stats, "tlc_scripts": nsim,
+        "both_sides_exploration": both,
         "antecedents_exercised_on_real_code": cnt,
         "model_drift_lines": len(res["drift"]), "known_findings_hit": known_hit,
         "failed_clauses": sorted({v["clause"] for v in res["viol"]}),
@@ -551,9 +552,11 @@ for _p in ("C08", "C17", "C18"):
 
 # ------------------------------------------------------------------ C09 / C19 / C20
 REG_TIER = {
-    "quick": dict(mc=[(3, 2, 7), (3, 3, 7)], live=(3, 2, 5), random_runs=500, steps=45, sweep=["-maxmax", "6", "-stride", "2"], sim_num=12),
+    "quick": dict(mc=[(3, 2, 7), (3, 3, 7)], live=(3, 2, 5), random_runs=500, steps=45, sweep=["-maxmax", "6", "-stride", "2"], sim_num=12,
+                  explore=[(3, 2, 6), (3, 3, 7), (2, 2, 6)], settle=2, repeat=6),
     "thorough": dict(mc=[(2, 2, 6), (3, 2, 7), (3, 3, 8), (4, 3, 9), (4, 2, 9)], live=(3, 2, 6), random_runs=4000, steps=60,
-                     sweep=["-maxmax", "10", "-stride", "1"], sim_num=120),
+                     sweep=["-maxmax", "10", "-stride", "1"], sim_num=120,
+                     explore=[(3, 2, 7), (3, 3, 8), (2, 2, 7), (4, 3, 8), (4, 2, 7)], settle=3, repeat=12),
 }
 
 
@@ -627,6 +630,29 @@ def reg_check(prop, tier, seed, work, replay):
         f, scr = os.path.join(d, "sweep.ndjson"), os.path.join(d, "sweep.scripts")
         stats["sweep"] = vlib.drive(binary, ["reg-sweep", "-seed", seed, "-o", f, "-scripts", scr] + T["sweep"], timeout=3600)
         files[f] = scr
+    # the real regulator's own reachable graph in MCReg's scope and alphabet (states rebuilt by replay; the dispatch iterates
+    # over a Go map, so expansions are repeated); every distinct transition is validated like any other call, and the number
+    # of states met is reported next to TLC's count for the same scope (real is a subset: the map order takes only some branches)
+    both = []
+    for mx, mn, reg in T["explore"]:
+        f, scr = os.path.join(d, "explore%d%d%d.ndjson" % (mx, mn, reg)), os.path.join(d, "explore%d%d%d.scripts" % (mx, mn, reg))
+        st = vlib.drive(binary, ["reg-explore", "-max", mx, "-min", mn, "-maxreg", reg, "-maxbatch", 3, "-maxout", 2, "-repeat", T["repeat"], "-o", f, "-scripts", scr,
+                                 "-settle", T["settle"] if prop == "C20" else 0], timeout=3600)
+        stats["explore%d%d%d" % (mx, mn, reg)] = st
+        files[f] = scr
+        m = next((x for x in mcs if x["scope"].get("MX") == str(mx) and x["scope"].get("MN") == str(mn) and x["scope"].get("MaxReg") == str(reg)
+                  and x["scope"].get("WithSettle") == "FALSE"), None)
+        if m is None:
+            m = generic_mc(work, "MCReg.tla", "mcregcmp%d%d%d" % (mx, mn, reg),
+                           dict(MX=str(mx), MN=str(mn), MaxReg=str(reg), MaxBatch="3", MaxOut="2", Props=vlib.tla_set([prop]), WithSettle="FALSE"),
+                           invariants=["MaxSweeps"], properties=["StepHolds"], view="View", timeout=3400)
+            if not m["ok"]:
+                print("MODEL-NOTE: clauses of %s violated in the MODEL (%s): not a verdict (R1)" % (prop, m["violated"]))
+            mcs.append(m)
+        both.append({"scope": {"max": mx, "min": mn, "registrants": reg, "batch": 3, "eliminations_per_sync": 2},
+                     "real_states": st.get("states"), "real_transitions": st.get("transitions"), "model_states": m["distinct"],
+                     "states_not_rebuilt_by_replay": st.get("unreproduced_states"), "settle_episodes": st.get("settle_episodes")})
+        log("[explore] (%d,%d,%d): real %s states / %s transitions, model %d states" % (mx, mn, reg, st.get("states"), st.get("transitions"), m["distinct"]))
     simf = os.path.join(d, "sim.scripts")
     nsim = reg_sim_scripts(work, T["sim_num"], seed, simf)
     f, scr = os.path.join(d, "sim.ndjson"), os.path.join(d, "sim.out.scripts")
@@ -663,6 +689,7 @@ def reg_check(prop, tier, seed, work, replay):
         "samples": [{"calls": [[x["op"], x["id"], x["out"], x["players"], x["err"], x["release"], x["handed"], x["calls"]] for x in vlib.read_lines(rf, 2, 9)]}],
         "model_checking": mc_summary(mcs),
         "real_calls_validated": res["lines"], "real_calls_by_source": stats, "tlc_scripts": nsim,
+        "both_sides_exploration": both,
         "antecedents_exercised_on_real_code": cnt,
         "model_drift_lines": len(res["drift"]), "known_findings_hit": known_hit,
         "failed_clauses": sorted({v["clause"] for v in res["viol"]}),
